@@ -45,13 +45,13 @@ Print Assumptions C16_example.
    of them re-opens this property even if no sampled case shows a difference.  Rewritten by tools/pin_shapes.py on a tree on which every check passes. *)
 From Connectome Require GlueJoinGen.
 Theorem C16_mirrored_functions_are_the_pinned_ones :
-  GlueJoinGen.shape_class_Join = "c2f4cf07b56e234c" /\
-  GlueJoinGen.shape_class_JoinContainer = "dc09c49ad7a5ba2d" /\
-  GlueJoinGen.shape_class_SwitchBranch = "202ea87a164ad799" /\
-  GlueJoinGen.shape_class_SwitchMissing = "09b9278b99ce6ff8" /\
-  GlueJoinGen.shape_priv_maybe_to_hash_id = "80d34b70d13b1b9d" /\
-  GlueJoinGen.shape_to_hash_id = "501cde71d807429e" /\
-  GlueJoinGen.shape_priv_chain_edges = "f009adada3e3a857".
+  GlueJoinGen.shape_class_Join = "c2f4cf07b56e234c"%string /\
+  GlueJoinGen.shape_class_JoinContainer = "dc09c49ad7a5ba2d"%string /\
+  GlueJoinGen.shape_class_SwitchBranch = "202ea87a164ad799"%string /\
+  GlueJoinGen.shape_class_SwitchMissing = "09b9278b99ce6ff8"%string /\
+  GlueJoinGen.shape_priv_maybe_to_hash_id = "80d34b70d13b1b9d"%string /\
+  GlueJoinGen.shape_to_hash_id = "501cde71d807429e"%string /\
+  GlueJoinGen.shape_priv_chain_edges = "f009adada3e3a857"%string.
 Proof. repeat split; reflexivity. Qed.
 Print Assumptions C16_mirrored_functions_are_the_pinned_ones.
 (* END PINNED FINGERPRINTS *)
